@@ -40,10 +40,12 @@ GENERATED = 48      # seeded generated databases in the corpus
 KINDS = ('trunc', 'tok_del', 'tok_dup', 'tok_swap', 'tok_flip', 'chr_flip', 'stmt_drop', 'stmt_dup', 'stmt_swap', 'soup', 'redos')
 
 FLIP = {
-    'number': ["'7'", '"00000000-0000-0000-0000-000000000007"', '7.5', 'TRUE', 'seven', '-7', '99999999999999999999999999'],
+    'number': ["'7'", '"00000000-0000-0000-0000-000000000007"', '7.5', 'TRUE', 'seven', '-7', '99999999999999999999999999',
+               "'50%'", '"%d-0000-0000-0000-000000000001"', "'%s'"],
     'fraction': ["'1.5'", '15', 'FALSE', '"1.5"', 'x1'],
     'string': ['17', '1.25', '"00000000-0000-0000-0000-000000000001"', 'TRUE', 'abc', "''", "'\n'"],
-    'guid': ["'00000000-0000-0000-0000-000000000001'", '42', '"not-a-guid"', '""', 'FALSE', '"zzzzzzzz-0000-0000-0000-000000000001"'],
+    'guid': ["'00000000-0000-0000-0000-000000000001'", '42', '"not-a-guid"', '""', 'FALSE', '"zzzzzzzz-0000-0000-0000-000000000001"',
+             '"00000000-0000-0000-0000-00000000%1"', "'100%'"],
     'ident': ['123', "'ident'", 'TABLE', 'M', 'MC', '1C', 'R9', '_x'],
     'punct': [',', '(', ')', ';', '-', ''],
 }
